@@ -346,16 +346,19 @@ def digitsVal : List Char → Bool → Option Nat → Option Nat
       (if prevUnderscore || acc.isNone then none else digitsVal t true acc)
     else none
 
+/-- sign handling of `int()`: `(negative, rest)` -/
+def splitSign (s : List Char) : Bool × List Char :=
+  match s with
+  | '-' :: t => (true, t)
+  | '+' :: t => (false, t)
+  | _ => (false, s)
+
 /-- `entry.int` = `int(self._value)` on ASCII text: blanks around, optional sign, decimal digits with
 single underscores -/
 def asInt (v : String) : Except Err Int :=
-  let s := stripBlanks v.toList
-  let (neg, body) := match s with
-    | '-' :: t => (true, t)
-    | '+' :: t => (false, t)
-    | _ => (false, s)
-  match digitsVal body false none with
-  | some n => .ok (if neg then -(n : Int) else n)
+  let sp := splitSign (stripBlanks v.toList)
+  match digitsVal sp.2 false none with
+  | some n => .ok (if sp.1 then -(n : Int) else n)
   | none => .error .value
 
 /-! ### Entries: `_replace` -/
@@ -615,6 +618,29 @@ def PState.closeSection (p : PState) : PState :=
   | some s => { p with done := p.done ++ [s], cur := none }
   | none => p
 
+/-- a section header line `[name]` -/
+def sectionLine (p : PState) (stripped : List Char) (ind : Nat) : Except IniErr PState :=
+  let name := String.ofList ((stripped.drop 1).takeWhile (· ≠ ']'))
+  let p := p.closeSection
+  if (p.done.map (·.1)).contains name then .error .duplicateSection
+  else .ok { p with cur := some (name, []), opt := none, indent := ind }
+
+/-- an option line `key = value` / `key` -/
+def optionLine (lower : Bool) (p : PState) (stripped : List Char) (ind : Nat) : Except IniErr PState :=
+  match p.closeOpt.cur with
+  | none => .error .noSection
+  | some (_, os) =>
+    let pr := partitionAt '=' stripped
+    let key := if lower then (rstripBlanks pr.1).map lowerChar else rstripBlanks pr.1
+    if key.isEmpty then .error .parsing else
+    if (os.map (·.key)).contains key then .error .duplicateOption else
+    .ok { p.closeOpt with opt := some ⟨key, if pr.2.1 then some [stripBlanks pr.2.2] else none⟩, indent := ind }
+
+/-- a line that is not a continuation: section header or option -/
+def headerLine (lower : Bool) (p : PState) (stripped : List Char) (ind : Nat) : Except IniErr PState :=
+  if stripped.head? = some '[' && stripped.contains ']' then sectionLine p stripped ind
+  else optionLine lower p stripped ind
+
 /-- one line of `RawConfigParser._read` -/
 def readLine (lower : Bool) (p : PState) (line : List Char) : Except IniErr PState :=
   let stripped := stripBlanks line
@@ -629,27 +655,9 @@ def readLine (lower : Bool) (p : PState) (line : List Char) : Except IniErr PSta
     let ind := (line.takeWhile isBlank).length
     match p.cur, p.opt with
     | some _, some ⟨k, some vs⟩ =>
-      if ind > p.indent then .ok { p with opt := some ⟨k, some (vs ++ [stripped])⟩ } else header stripped ind
-    | _, _ => header stripped ind
-where
-  header (stripped : List Char) (ind : Nat) : Except IniErr PState :=
-    if stripped.head? = some '[' && stripped.contains ']' then
-      let name := String.ofList ((stripped.drop 1).takeWhile (· ≠ ']'))
-      let p := p.closeSection
-      if (p.done.map (·.1)).contains name then .error .duplicateSection
-      else .ok { p with cur := some (name, []), opt := none, indent := ind }
-    else
-      match p.cur with
-      | none => .error .noSection
-      | some (_, os) =>
-        let p := p.closeOpt
-        let os := match p.cur with | some (_, os') => os' | none => os
-        let (k, hasEq, v) := partitionAt '=' stripped
-        let key := rstripBlanks k
-        let key := if lower then key.map lowerChar else key
-        if key.isEmpty then .error .parsing else
-        if (os.map (·.key)).contains key then .error .duplicateOption else
-        .ok { p with opt := some ⟨key, if hasEq then some [stripBlanks v] else none⟩, indent := ind }
+      if ind > p.indent then .ok { p with opt := some ⟨k, some (vs ++ [stripped])⟩ }
+      else headerLine lower p stripped ind
+    | _, _ => headerLine lower p stripped ind
 
 def readIniRaw (lower : Bool) (text : String) : Except IniErr (List (String × List RawOpt)) :=
   let r : Except IniErr PState := (splitLines text.toList).foldl (fun acc l => match acc with
@@ -662,33 +670,36 @@ the blank a value starting on a continuation line would get is stripped) -/
 def joinValue (vs : List (List Char)) : String :=
   String.ofList (stripBlanks ((rstripBlanks (joinLines vs)).map (fun c => if c = '\n' then ' ' else c)))
 
+/-- `cfg_section.partition("__")` -/
+def partDunder : List Char → List Char × Bool × List Char
+  | [] => ([], false, [])
+  | '_' :: '_' :: t => ([], true, t)
+  | c :: t => (c :: (partDunder t).1, (partDunder t).2.1, (partDunder t).2.2)
+
+/-- the `meta` dict of one key: `{k.partition(":")[-1]: v for k, v in items if k.startswith(f"{key}:")}`
+(a meta key given twice keeps its first position and the last value) -/
+def metaOf (opts : List RawOpt) (key : List Char) : List (String × Option String) :=
+  (opts.filterMap fun m =>
+    if isPrefix (key ++ [':']) m.key then
+      some (String.ofList (partitionAt ':' m.key).2.2, m.value.map joinValue)
+    else none).foldl (fun acc p => dset acc p.1 p.2) []
+
+/-- the updates one parsed section issues -/
+def sectionUpdates (source : String) (allowNew : Bool) (cfgSection : String) (opts : List RawOpt) :
+    List (String × Upd) :=
+  let pd := partDunder cfgSection.toList
+  if pd.1.isEmpty then [] else
+  opts.filterMap fun o =>
+    if o.key.contains ':' then none else
+    some (String.ofList o.key,
+      ⟨String.ofList pd.1, String.ofList o.key, (o.value.map joinValue).getD "None",
+       if pd.2.1 then some (String.ofList pd.2.2) else none, source, metaOf opts o.key, allowNew⟩)
+
 /-- the entry loop of `update_from_file` over the parsed file: the updates it issues, in order
 (`__replace__` substitution is outside the modelled subset) -/
 def fileUpdates (source : String) (allowNew : Bool) (raw : List (String × List RawOpt)) :
     List (String × Upd) :=
-  raw.flatMap fun (cfgSection, opts) =>
-    let cs := cfgSection.toList
-    -- `section, has_profile, profile = cfg_section.partition("__")`
-    let rec part : List Char → List Char × Bool × List Char
-      | [] => ([], false, [])
-      | '_' :: '_' :: t => ([], true, t)
-      | c :: t => let (a, f, b) := part t; (c :: a, f, b)
-    let (sec, hasProfile, prof) := part cs
-    if sec.isEmpty then [] else
-    opts.filterMap fun o =>
-      if o.key.contains ':' then none else
-      let pre := o.key ++ [':']
-      let mt := opts.filterMap fun m =>
-        if isPrefix pre m.key then
-          -- `k.partition(":")[-1]`
-          let (_, _, mk) := partitionAt ':' m.key
-          some (String.ofList mk, m.value.map joinValue)
-        else none
-      -- a meta key given twice keeps its first position and the last value (dict comprehension)
-      let mt := mt.foldl (fun acc (k, v) => dset acc k v) []
-      some (String.ofList o.key,
-        ⟨String.ofList sec, String.ofList o.key, (o.value.map joinValue).getD "None",
-         if hasProfile then some (String.ofList prof) else none, source, mt, allowNew⟩)
+  raw.flatMap fun so => sectionUpdates source allowNew so.1 so.2
 
 /-- `update_from_file(path)` for a file with the given text (no `__replace__`/`__vars__` sections) -/
 def Cfg.updateFromText (c : Cfg) (text source : String) (allowNew caseSensitive : Bool) :
